@@ -12,11 +12,13 @@ use crate::Opts;
 
 pub fn ops_for(prop: &str) -> Vec<&'static str> {
     match prop {
-        "C07" => vec!["map", "filter", "scan", "take", "skip"],
-        "C08" => vec!["merge"],
-        "C09" => vec!["concat"],
-        "C10" => vec!["combine"],
-        "C11" => vec!["flatten"],
+        // "tree": composed topologies in which every instance of the operator is judged with the
+        // taps around it as its peers
+        "C07" => vec!["map", "filter", "scan", "take", "skip", "tree"],
+        "C08" => vec!["merge", "tree"],
+        "C09" => vec!["concat", "tree"],
+        "C10" => vec!["combine", "tree"],
+        "C11" => vec!["flatten", "tree"],
         "C12" => vec!["share"],
         "C14" => vec!["from_iter", "map", "filter", "scan", "take", "skip", "concat", "flatten", "tree"],
         "C15" => vec!["from_iter"],
@@ -135,6 +137,19 @@ pub fn run(o: &Opts, rep: &mut Report) {
     };
     let total: u64 = o.cases.unwrap_or(if o.tier == "thorough" { 4_000_000 } else { 260_000 });
     let per_op = (total / ops.len() as u64).max(1);
+    // the single-operator checks C08-C11 give a quarter of their budget to composed topologies
+    let two = ops.len() == 2 && ops[1] == "tree";
+    let budget = move |op: &str| -> u64 {
+        if two {
+            if op == "tree" {
+                (total / 4).max(1)
+            } else {
+                (total * 3 / 4).max(1)
+            }
+        } else {
+            per_op
+        }
+    };
     let known = load_known(&o.known);
     let which = Which::for_prop(&o.prop);
     let nthreads = o.threads.max(1);
@@ -151,6 +166,7 @@ pub fn run(o: &Opts, rep: &mut Report) {
             hs.push(s.spawn(move || {
                 let mut rep = Report::default();
                 for op in ops.iter() {
+                    let per_op = budget(op);
                     let mut i = t as u64;
                     while i < per_op {
                         let (spec, mut c) = make_case(seed, &prop, op, i);
